@@ -71,3 +71,91 @@ def make_reader(st, names, nbits):
     ents = [sp.FileInfo(filename=n, hdrlen=SInt(FS.files[n].hdrlen), datalen=SInt(FS.files[n].datalen),
                         nsamples=SInt(FS.files[n].datalen), tstart=0.0, tsamp=1.0) for n in names]
     return st["FileReader"](st["StreamInfo"](ents), mode="r", nbits=nbits)
+
+
+# ---------------------------------------------------------------- FilReader layer
+
+class RecHeader:
+    """Header stand-in: concrete channelisation, symbolic nsamples; records derived headers.
+    (The real Header is an attrs class validated by astropy; its field arithmetic is the
+    subject of C05/C08, not of the streaming properties.)"""
+
+    def __init__(self, nchans, nsamples, nbits, fch1=1500.0, foff=-1.0, tsamp=1.0, parent=None, updates=None):
+        self.nchans, self.nsamples, self.nbits = nchans, nsamples, nbits
+        self.fch1, self.foff, self.tsamp = fch1, foff, tsamp
+        self.basename = "sym"
+        self.updates = updates
+        self.parent = parent
+        self.derived = [] if parent is None else parent.derived
+
+    @property
+    def dtype(self):
+        from sigpyproc.io.bits import BitsInfo
+        return BitsInfo(self.nbits).dtype
+
+    def mjd_after_nsamps(self, n):
+        return ("mjd_after_nsamps", n)
+
+    def new_header(self, update_dict=None):
+        h = RecHeader(self.nchans, self.nsamples, self.nbits, self.fch1, self.foff, self.tsamp, parent=self,
+                      updates=dict(update_dict or {}))
+        for k, v in (update_dict or {}).items():
+            if k in ("nchans", "nsamples", "nbits", "fch1", "foff", "tsamp"):
+                setattr(h, k, v)
+        self.derived.append(h)
+        return h
+
+
+class RecBlock:
+    """FilterbankBlock / TimeSeries recorder"""
+
+    def __init__(self, data, header, dm=0):
+        self.data, self.header, self.dm = data, header, dm
+
+
+def passthrough_track(it, **kw):
+    return it
+
+
+READER_STUBS = ["np.frombuffer -> functional view", "bytearray -> SymBuf", "memoryview -> MV", "int -> trunc on symbolic reals",
+                "min -> ite", "rich.progress.track -> identity", "FilterbankBlock/TimeSeries -> recorder", "Header -> RecHeader (records new_header updates)"]
+
+
+def build_filreader(R=None, st=None):
+    """rebound FilReader class (real read_plan/read_block/... bytecode)"""
+    from sigpyproc import readers
+    st = st or build_fileio(R)
+    sub = dict(np=NPfile, allocate_buffer=st["allocate_buffer"], track=passthrough_track, memoryview=MV, bytearray=SymBuf,
+               int=s_int, min=s_min, max=s_max, FilterbankBlock=RecBlock, FileReader=st["FileReader"])
+    RF = rebind_class(readers.FilReader, sub, name="RFilReader")
+    if R is not None:
+        R.encode(readers.FilReader.read_plan, readers.FilReader.read_block, readers.FilReader.__dict__["chan_stride"],
+                 readers.FilReader.__dict__["samp_stride"], readers.FilReader.__dict__["bitsinfo"])
+        R.stub(*READER_STUBS)
+    st = dict(st)
+    st["FilReader"] = RF
+    return st
+
+
+def make_filreader(ctx, st, nbits, nchans, nfiles, cls=None):
+    """A FilReader over nfiles symbolic files holding n_i whole samples each.
+    returns (reader, N term, samples-per-file terms)"""
+    from sigpyproc.io.bits import BitsInfo
+    bi = BitsInfo(nbits)
+    stride_bits = nchans * nbits
+    assert stride_bits % 8 == 0
+    stride = stride_bits // 8
+    names, hl, dl, T = make_files(ctx, nfiles)
+    ns = []
+    for i, d in enumerate(dl):
+        n = z3.Int(f"n{i}")
+        ctx.assume(z3.And(n >= 0, d == n * stride))
+        ns.append(n)
+    N = z3.Sum(ns) if len(ns) > 1 else ns[0]
+    ctx.assume(N >= 1)
+    cls = cls or st["FilReader"]
+    r = object.__new__(cls)
+    r._filenames = names
+    r._header = RecHeader(nchans, SInt(N), nbits)
+    r._file = make_reader(st, names, nbits)
+    return r, N, ns, (hl, dl)
